@@ -173,7 +173,16 @@ func Run(opt Options) []rec.Event {
 								if f != ".pid" {
 									q = readPid(filepath.Join(dir, p))
 								}
-								if !gone(q) {
+								ok := gone(q)
+								if f != ".pid" {
+									// the group has been sent SIGKILL; the death of a member other than the leader is
+									// asynchronous by a scheduling delay: allow it 250 ms
+									for i := 0; i < 250 && !ok; i++ {
+										time.Sleep(time.Millisecond)
+										ok = gone(q)
+									}
+								}
+								if !ok {
 									allGone = false
 								}
 							}
